@@ -484,6 +484,13 @@ class CompilerPassGenerateCode(CompilerPass):
             ret_value = self.get_register_name() if func_data.has_return_value else ""
             sym_data.code_expr = ret_value
             calling_node = sym_data.nodes_reading[0].parent
+            if ret_value and isinstance(calling_node.scope(), nodes.FunctionDef):
+                # inlined into another function, which runs whenever it is called: the line
+                # interval between this definition and the call site says nothing about when
+                # the result register is in use
+                import sys
+
+                sym_data._lifetime = range(0, sys.maxsize)
 
             if len(node.args.args) != len(calling_node.args):
                 raise CompilerError(
